@@ -173,6 +173,11 @@ func (vs *Vars) UnmarshalYAML(node *yaml.Node) error {
 			keyNode := node.Content[i]
 			valueNode := node.Content[i+1]
 
+			// A variable must not silently replace an earlier one
+			if err := duplicateKeyError(node, i); err != nil {
+				return err
+			}
+
 			// Decode the value node into a Task struct
 			var v Var
 			if err := valueNode.Decode(&v); err != nil {
